@@ -963,6 +963,11 @@ func ringEdgeCases() *mc.Failure {
 	if ring.New[int](0) != nil || ring.New[int](-1) != nil || ring.Of[int]() != nil {
 		return mc.Failf(0, "New(<=0) / Of() is not the nil ring")
 	}
+	// an empty argument list is empty however it is spelled: nil, empty
+	// non-nil, empty with spare capacity
+	if ring.Of([]int{}...) != nil || ring.Of(make([]int, 0, 4)...) != nil || ring.Of([]int(nil)...) != nil {
+		return mc.Failf(0, "Of(empty slice...) is not the nil ring")
+	}
 	var z *ring.Ring[int]
 	if z.Len() != 0 || !z.IsEmpty() || z.At(0) != nil || z.At(1) != nil || z.Pop() != nil {
 		return mc.Failf(0, "nil ring: Len/IsEmpty/At/Pop")
